@@ -1913,5 +1913,5 @@ def fresh_hoist_census(ctx, crate):
                     ctx.bad("fresh-hoisted:" + fkey(crate.root_of(b)),
                             "%s draws %s in front of a loop and uses the value inside it (%s): every iteration gets the SAME slot where each needs a brand-new one — two different slots are renamed to one name" % (short(crate.root_of(b).id), what, hit.callee.name if hit.callee else "?"),
                             where_of(b, hit.bb))
-    ctx.floor("Slot::fresh sites inside loops (positive control)", in_loop, 6)
+    ctx.floor("Slot::fresh sites inside loops (positive control)", in_loop, 3)       # (a vacuity guard: 7 today in the default configuration; merging copies behind a helper lowers it)
     ctx.ok("fresh-not-hoisted", "no fresh slot drawn outside a loop / per-element closure is consumed inside it (%d sites draw inside their loop)" % in_loop)
